@@ -45,18 +45,29 @@ ChunkIndependent == pc = "done" => emitted = CodeSemantics
 EachOnce == [][pc = "loop" => (emitted' = emitted \/ (emitted' \ emitted) \cap emitted = {})]_vars
 Terminates == <>(pc = "done")
 
-\* nearest tabulated wavelength (cube packages): index of a wavelength at minimal distance
-Nearest(wavs, x2) == {i \in 1..Len(wavs) : \A k \in 1..Len(wavs) :
-                         (IF 2 * wavs[i] >= x2 THEN 2 * wavs[i] - x2 ELSE x2 - 2 * wavs[i])
-                      <= (IF 2 * wavs[k] >= x2 THEN 2 * wavs[k] - x2 ELSE x2 - 2 * wavs[k])}
+\* nearest tabulated wavelength (cube packages): index of a wavelength at minimal distance.  Requests are x4 / 4 (quarter
+\* units); the cube's wavelengths are GEOMETRIC (2, 4, 8, ...), so "nearest in wavelength" differs from "nearest in
+\* frequency" (boundary at the harmonic instead of the arithmetic mean) and from "nearest in log wavelength" (geometric mean)
+Nearest(wavs, x4) == {i \in 1..Len(wavs) : \A k \in 1..Len(wavs) :
+                         (IF 4 * wavs[i] >= x4 THEN 4 * wavs[i] - x4 ELSE x4 - 4 * wavs[i])
+                      <= (IF 4 * wavs[k] >= x4 THEN 4 * wavs[k] - x4 ELSE x4 - 4 * wavs[k])}
+RECURSIVE Pow2(_)
+Pow2(k) == IF k = 0 THEN 1 ELSE 2 * Pow2(k - 1)
+\* probes per adjacent pair (a, b): just above a, just above the harmonic mean, just below / on / just above the arithmetic
+\* mean (the tie), just below b; plus below the first and above the last wavelength
+PairProbes(a, b) == {4 * a + 1, ((8 * a * b) \div (a + b)) + 1, 2 * (a + b) - 1, 2 * (a + b), 2 * (a + b) + 1, 4 * b - 1}
+Probes(wavs) == {2, 4 * wavs[1], 4 * wavs[Len(wavs)] + 7} \cup UNION {PairProbes(wavs[i], wavs[i + 1]) : i \in 1..(Len(wavs) - 1)}
+\* the probe above the harmonic mean lies strictly between the harmonic and the arithmetic mean for every pair of the geometric grid
+HarmonicProbeSeparates == \A i \in 1..(n - 1) : LET a == Pow2(i)  b == Pow2(i + 1)  x == ((8 * a * b) \div (a + b)) + 1
+                                                 IN  x * (a + b) > 8 * a * b /\ x < 2 * (a + b) /\ Nearest(<<a, b>>, x) = {1}
 
 SetToSeqSorted(S) == LET RECURSIVE F(_, _)
                          F(T, acc) == IF T = {} THEN acc
                                       ELSE LET m == CHOOSE x \in T : \A y \in T : x <= y IN F(T \ {m}, Append(acc, m))
                      IN  F(S, <<>>)
-WAsc == [i \in 1..n |-> 2 * i]          \* the cube's wavelengths in increasing order
+WAsc == [i \in 1..n |-> Pow2(i)]        \* the cube's wavelengths in increasing order
 EmitInv == pc = "done" => PrintT(ToJson([n |-> n, c |-> c, lo |-> lo, hi |-> hi, emitted |-> SetToSeqSorted(emitted),
                                           open |-> SetToSeqSorted(Inclusive \ Strict),
                                           near |-> IF c = 1 /\ lo = 0 /\ hi = 2 * n + 2
-                                                   THEN [x2 \in 2..(4 * n + 6) |-> SetToSeqSorted(Nearest(WAsc, x2))] ELSE <<>>]))
+                                                   THEN [x4 \in Probes(WAsc) |-> SetToSeqSorted(Nearest(WAsc, x4))] ELSE <<>>]))
 =============================================================================
